@@ -121,12 +121,18 @@ def followup(plan: Dict[str, Any], record: Dict[str, Any]) -> Optional[Dict[str,
     if plan.get("phase") != "dry" or plan.get("no_followup"):
         return None
     rng = random.Random(plan["run_seed"] * 6151 + 3)
-    if rng.random() < 0.5:
+    if rng.random() < 0.4:
         return None
     counts = record.get("seam_counts", {})
     faults = []
-    if counts.get("z3_calls"):
-        faults.append({"kind": rng.choice(["z3_outage", "z3_starved", "z3_unknown"]), "at_call": rng.randrange(counts["z3_calls"]), "len": rng.choice([21, 60, 400])})
+    sites = {k: v for k, v in (record.get("z3_sites") or {}).items() if v > 0}
+    if sites and rng.random() < 0.5:
+        # an outage that hits the queries of one ISLa function only (e.g. the validity
+        # checks of is_valid, the SMT enumeration): the others are served normally
+        site = rng.choice(sorted(sites))
+        faults.append({"kind": "z3_site_outage", "site": site, "at_site_call": rng.randrange(sites[site]), "len": rng.choice([21, 40, 200, 100000])})
+    elif counts.get("z3_calls"):
+        faults.append({"kind": rng.choice(["z3_outage", "z3_starved", "z3_unknown", "z3_slow"]), "at_call": rng.randrange(counts["z3_calls"]), "len": rng.choice([21, 60, 400]), "delta": rng.choice([31.0, 121.0])})
     if counts.get("clock_reads") and rng.random() < 0.5:
         faults.append({"kind": rng.choice(["clk_jump_fwd", "clk_slow_window"]), "at_read": rng.randrange(counts["clock_reads"] + 1), "delta": rng.choice([10.0, 200.0]), "len": 5, "factor": 100.0})
     if not faults:
@@ -220,6 +226,7 @@ def execute(plan: Dict[str, Any]) -> Dict[str, Any]:
     record["seam_counts"] = world.seam_counts()
     record["fired"] = world.fired()
     record["z3_results"] = world.z3.results
+    record["z3_sites"] = world.z3.sites
     record["virtual_s"] = round(world.clock.now_virtual(), 3)
     h = hashlib.sha256()
     h.update(world.log.digest().encode())
